@@ -59,6 +59,17 @@ def build_harness():
         sys.stderr.write(r.stdout[-6000:])
         raise ToolError("cargo build of the harness failed")
     log("harness built in %.1fs" % (time.time() - t0))
+    # the command-line binary itself (C14 runs `darklua convert`): built from the same working tree into the harness' own
+    # target directory, never into /repo
+    t1 = time.time()
+    r = subprocess.run(["cargo", "build", "--offline", "--quiet", "--bin", "darklua", "--manifest-path", os.path.join(REPO, "Cargo.toml"),
+                        "--target-dir", os.path.join(HARNESS, "target", "cli")], cwd=HARNESS, env=env,
+                       stdout=subprocess.PIPE, stderr=subprocess.STDOUT, text=True)
+    if r.returncode != 0:
+        sys.stderr.write(r.stdout[-4000:])
+        raise ToolError("cargo build of the darklua binary failed")
+    os.environ["DLV_DARKLUA_BIN"] = os.path.join(HARNESS, "target", "cli", "debug", "darklua")
+    log("darklua binary built in %.1fs" % (time.time() - t1))
     _built = True
 
 
